@@ -934,9 +934,8 @@ def _arr_parts(arr):
 def _nonempty(I, arr):
     if isinstance(arr, SArray):
         return arr.len_term() > 0
-    k = z3.Int(fresh("ne"))
-    n = V.iterm(arr.length)
-    return z3.Exists([k], z3.And(k >= 0, k < n, arr.maskfn(k)))
+    # compressed array: non-empty iff the mask holds somewhere (same count term as .size / .shape)
+    return V.iterm(count_mask(I, arr.maskfn, arr.length)) > 0
 
 
 SUM = z3.Function("sum", z3.ArraySort(z3.IntSort(), z3.RealSort()), z3.IntSort(), z3.RealSort())
@@ -1089,6 +1088,19 @@ def install_numpy(I):
         raise Unsupported("isinf")
     L["numpy.isinf"] = ew1(np_isinf)
 
+    def isclose(I, a, b, rtol=None, atol=None, **k):
+        rt = V.rterm(rtol) if rtol is not None else z3.RealVal("1e-5")
+        at = V.rterm(atol) if atol is not None else z3.RealVal("1e-8")
+
+        def f(x, y):
+            d = V.rterm(x) - V.rterm(y)
+            ay = z3.If(V.rterm(y) >= 0, V.rterm(y), -V.rterm(y))
+            return SBool(z3.If(d >= 0, d, -d) <= at + rt * ay)
+        if A.is_arraylike(a) or A.is_arraylike(b):
+            return A.elementwise(I, f, a, b, kind="bool")
+        return f(a, b)
+    L["numpy.isclose"] = isclose
+
     def array_equal(I, a, b, **k):
         if isinstance(a, SArray) and isinstance(b, SArray):
             if a is b:
@@ -1147,6 +1159,14 @@ def install_misc(I):
     L["copy.copy"] = copy_copy
 
     def deep(I, x):
+        r = deep0(I, x)
+        if r is not x and isinstance(r, (list, sx.SDict, sx.Obj)):
+            # provenance of copies (ghost): lets contracts relate a stored copy to the value it came from
+            I.copy_origin[id(r)] = x
+            I.keepalive.append(r)
+        return r
+
+    def deep0(I, x):
         if isinstance(x, list):
             return [deep(I, v) for v in x]
         if isinstance(x, tuple):
